@@ -42,10 +42,17 @@ def showVal (r : R Val) : String :=
   | .ok (.ds d) => showSet d
   | .error e => "err:" ++ e.name
 
+def showQ (r : R (Option Int)) : String :=
+  match r with
+  | .ok (some v) => s!"int {v}"
+  | .ok none => "None"
+  | .error e => "err:" ++ e.name
+
 def cmpOp (op : String) (a b : SI) : Option (R BoolRes) :=
   match op with
   | "eq" => some (a.eq b) | "ne" => some (do return (← a.eq b).not)
   | "ULT" => some (a.ULT b) | "ULE" => some (a.ULE b) | "UGT" => some (a.UGT b) | "UGE" => some (a.UGE b)
+  | "SLT" => some (a.SLT b) | "SLE" => some (a.SLE b) | "SGT" => some (a.SGT b) | "SGE" => some (a.SGE b)
   | _ => none
 
 def binOp (op : String) : Option (SI → SI → R SI) :=
@@ -56,6 +63,8 @@ def binOp (op : String) : Option (SI → SI → R SI) :=
   | "or" => some SI.bitwiseOr
   | "xor" => some SI.bitwiseXor
   | "mod" => some SI.mod
+  | "mul" => some SI.mul
+  | "lshr" => some SI.rshiftLogical
   | "shl" => some SI.lshift
   | "ashr" => some SI.rshiftArith
   | "concat" => some SI.concat
@@ -83,6 +92,10 @@ def handleDS (toks : List String) : String :=
           | "collapse", none, [] => showVal (do return .si (← a.collapse))
           | "normalize", none, [] => showVal a.normalize
           | "cardinality", none, [] => (match a.cardinality with | .ok n => s!"int {n}" | .error e => "err:" ++ e.name)
+          | "min", none, [] => showQ (a.minQ false)
+          | "max", none, [] => showQ (a.maxQ false)
+          | "smin", none, [] => showQ (a.minQ true)
+          | "smax", none, [] => showQ (a.maxQ true)
           | "opneg", none, [] => showVal (a.lift1 (fun s => pure s.neg) order)
           | "not", none, [] => showVal (a.lift1 SI.bitwiseNot order)
           | "zext", none, [n] => showVal (a.lift1 (fun s => s.zeroExtend n) order)
